@@ -54,3 +54,43 @@ Example C08_h265_example :
   = [DMore; DFrame [[38; 1]; [9]; [8]]; DErr; DErr]
   /\ pts_equals_dts [96; 1; 0; 2; 2; 1; 0; 2; 64; 1] = Some true.
 Proof. vm_compute. split; reflexivity. Qed.
+
+(* ---- the translated kernels (tools/go2coq, regenerated from the Go source on every run) ----
+   The length tests and caps of rtph265/decoder.go - len(payload) < 2, < 3, the accumulation d.fragmentsSize +=
+   len(payload[3:]) and its cap > h265.MaxAccessUnitSize, the aggregation-unit walk (len(payload) < 2, the 16-bit size
+   field, size == 0 || int(size) > len(payload), len(payload) == 0), the NALU-count cap and the access-unit size cap
+   of Decode with their accumulations - ARE the tests of Model.decode_nalus / ap_walk / dec (the constants are
+   GVG.Consts' h265_max_au, h265_max_nalus). *)
+From Coq Require Import ZArith.
+From GVG Require Import Kern.
+From GV_h265 Require Import BridgeLib Bridge.
+Open Scope Z_scope.
+
+Theorem C08_h265_kernels_are_the_code :
+  forall (pl pl2 data rest : bytes) (b0 b1 p0 p1 fs fl l fsz add : N),
+  byte p0 -> byte p1 -> Z.of_N (fs + nlen data) < i64max -> Z.of_N (fl + l) < i64max -> Z.of_N (fsz + add) < i64max ->
+  k_h265_dec_short (Z.of_N (nlen pl)) = match pl with _ :: _ :: _ => false | _ => true end /\
+  k_h265_dec_fushort (Z.of_N (nlen (b0 :: b1 :: pl2))) = match pl2 with [] => true | _ :: _ => false end /\
+  k_h265_dec_cap (k_h265_dec_acc (Z.of_N fs) (Z.of_N (nlen data))) (Z.of_N cap) = (cap <? fs + nlen data)%N /\
+  k_h265_dec_acc (Z.of_N fs) (Z.of_N (nlen data)) = Z.of_N (fs + nlen data) /\
+  k_h265_ap_dshort (Z.of_N (nlen pl)) = match pl with _ :: _ :: _ => false | _ => true end /\
+  k_h265_ap_dsize (Z.of_N p0) (Z.of_N p1) = Z.of_N (p0 * 256 + p1) /\
+  k_h265_ap_dbad (Z.of_N (p0 * 256 + p1)) (Z.of_N (nlen rest)) = ((p0 * 256 + p1 =? 0) || (nlen rest <? p0 * 256 + p1))%N /\
+  k_h265_ap_ddone (Z.of_N (nlen pl)) = match pl with [] => true | _ :: _ => false end /\
+  k_h265_fb_count (Z.of_N fl) (Z.of_N l) (Z.of_N maxn) = (maxn <? fl + l)%N /\
+  k_h265_fb_size (Z.of_N fsz) (Z.of_N add) (Z.of_N cap) = (cap <? fsz + add)%N /\
+  k_h265_fb_len_acc (Z.of_N fl) (Z.of_N l) = Z.of_N (fl + l) /\
+  k_h265_fb_size_acc (Z.of_N fsz) (Z.of_N add) = Z.of_N (fsz + add).
+Proof. exact caps_kernels_are_the_code. Qed.
+Print Assumptions C08_h265_kernels_are_the_code.
+
+Example C08_h265_example_kernels :
+  k_h265_dec_cap (k_h265_dec_acc (Z.of_N cap - 10) 10) (Z.of_N cap) = false /\
+  k_h265_dec_cap (k_h265_dec_acc (Z.of_N cap - 10) 11) (Z.of_N cap) = true /\
+  k_h265_ap_dsize 1 2 = 258 /\ k_h265_ap_dbad 258 257 = true /\ k_h265_ap_dbad 258 258 = false /\
+  k_h265_ap_dbad 0 5 = true /\ k_h265_ap_dshort 1 = true /\ k_h265_ap_dshort 2 = false /\
+  k_h265_ap_ddone 0 = true /\ k_h265_ap_ddone 1 = false /\
+  k_h265_fb_count (Z.of_N maxn - 1) 1 (Z.of_N maxn) = false /\ k_h265_fb_count (Z.of_N maxn) 1 (Z.of_N maxn) = true /\
+  k_h265_fb_size (Z.of_N cap - 1) 1 (Z.of_N cap) = false /\ k_h265_fb_size (Z.of_N cap) 1 (Z.of_N cap) = true /\
+  k_h265_dec_short 1 = true /\ k_h265_dec_short 2 = false /\ k_h265_dec_fushort 2 = true /\ k_h265_dec_fushort 3 = false.
+Proof. vm_compute. repeat split. Qed.
